@@ -28,6 +28,7 @@ def obligations(ctx, tier):
         for A in ADTS:
             out += arith.mode_rows(K, PROP, A, "mul", "TT", lambda W, a, b: a * b, "overflow(mul)")
             T = T_(A)
+            out += core.g_row(K, PROP, inh(A, "unchecked_mul"), arith.reps(A, "TT", arith.unchecked_expect(A, lambda W, a, b: a * b)))
             out += core.g_row(K, PROP, tr(A, OPS + "Mul", [T], "mul"),
                               arith.reps(A, "TT", arith.form_expect("plain", A, lambda W, a, b: a * b, "overflow(mul)", K.debug)))
             if not is_signed(A):
